@@ -24,6 +24,7 @@ func TestC13DyingChannelIsolation(t *testing.T) {
 	rec := evid.New(t, "C13", "3..6 channels on custom transports; the consumer is paused, then the transport of 1..2 channels fails (read error, optionally with a blocked writer or a failing write as well) so that their close events stay undelivered; 5..40 items are written to all channels / all but one while the failed channels are dying; every healthy channel must receive every item addressed to it, in order, within the bound, every Write call returns promptly, and once the consumer resumes each failed channel is reported by a close event carrying an error; non-trivial = always (writes land in the dying window); distinct by hash of the parameters")
 	rec.Require("two-dying-channels", "dying-channel-with-blocked-writer", "writes-all-and-except")
 	evid.Check(t, rec, evid.N(150, 500), func(t *rapid.T) {
+		drawNodeInit(t)
 		nch := rapid.IntRange(3, 6).Draw(t, "nch")
 		nv := rapid.IntRange(1, 2).Draw(t, "victims")
 		victims := rapid.Permutation(seqInts(nch)).Draw(t, "victim_order")[:nv]
@@ -75,7 +76,7 @@ func runC13Dying(nch int, victims []int, gateVictim bool, warm int, ops []int) e
 		endpoints = append(endpoints, gomavlib.EndpointCustom{ReadWriteCloser: pipes[i]})
 	}
 	n := &gomavlib.Node{Endpoints: endpoints, Dialect: ardupilotmega.Dialect, OutVersion: gomavlib.V2, OutSystemID: nodeSys, HeartbeatDisable: true}
-	if err := n.Initialize(); err != nil {
+	if err := initNode(&n); err != nil {
 		return fmt.Errorf("BROKEN: %v", err)
 	}
 	rec := sim.StartRecorder(n, sim.Pacing{Kind: "fast"}, nil)
